@@ -43,6 +43,9 @@ enum PoolEntry {
 	Package { name_index: u16 },
 }
 
+/// How deep `Dynamic` pool entries may be nested in the arguments of their bootstrap methods.
+const MAX_DYNAMIC_DEPTH: usize = 256;
+
 impl PoolEntry {
 	fn as_utf8(&self) -> Result<&JavaString> {
 		let PoolEntry::Utf8 { string } = self else {
@@ -201,7 +204,13 @@ impl PoolEntry {
 		MethodDescriptor::try_from(pool.get_utf8(descriptor_index).context("while getting method type")?)
 	}
 
-	fn as_dynamic(&self, pool: &PoolRead, bootstrap_methods: &Option<Vec<BootstrapMethodRead>>) -> Result<ConstantDynamic> {
+	fn as_dynamic(&self, pool: &PoolRead, bootstrap_methods: &Option<Vec<BootstrapMethodRead>>, depth: usize) -> Result<ConstantDynamic> {
+		// A dynamic constant can have dynamic constants as arguments of its bootstrap method. This bounds the
+		// depth, so that a (malformed) class file where these form a cycle can't overflow the stack.
+		if depth >= MAX_DYNAMIC_DEPTH {
+			bail!("`Dynamic` pool entries are nested more than {MAX_DYNAMIC_DEPTH} levels deep (or form a cycle) in their bootstrap method arguments");
+		}
+
 		let PoolEntry::Dynamic { bootstrap_method_attribute_index, name_and_type_index } = *self else {
 			bail!("pool entry not `Dynamic`: {self:?}");
 		};
@@ -218,7 +227,7 @@ impl PoolEntry {
 		let arguments = {
 			let mut vec = Vec::with_capacity(method.arguments.len());
 			for &argument in &method.arguments {
-				let value = pool.get_loadable(argument, bootstrap_methods)
+				let value = pool.get_loadable_nested(argument, bootstrap_methods, depth + 1)
 					.with_context(|| anyhow!("while argument for `Dynamic` at index {bootstrap_method_attribute_index:?}: {name:?} {descriptor:?} {handle:?}"))?;
 				vec.push(value); // TODO: recursion
 			}
@@ -255,7 +264,7 @@ impl PoolEntry {
 		Ok(InvokeDynamic { name, descriptor, handle, arguments })
 	}
 
-	fn as_loadable(&self, pool: &PoolRead, bootstrap_methods: &Option<Vec<BootstrapMethodRead>>) -> Result<Loadable> {
+	fn as_loadable(&self, pool: &PoolRead, bootstrap_methods: &Option<Vec<BootstrapMethodRead>>, depth: usize) -> Result<Loadable> {
 		match self {
 			PoolEntry::Integer { .. } => Ok(Loadable::Integer(self.as_integer()?)),
 			PoolEntry::Float { .. } => Ok(Loadable::Float(self.as_float()?)),
@@ -265,7 +274,7 @@ impl PoolEntry {
 			PoolEntry::String { .. } => Ok(Loadable::String(self.as_string(pool)?)),
 			PoolEntry::MethodHandle { .. } => Ok(Loadable::MethodHandle(self.as_method_handle(pool)?)),
 			PoolEntry::MethodType { .. } => Ok(Loadable::MethodType(self.as_method_type(pool)?)),
-			PoolEntry::Dynamic { .. } => Ok(Loadable::Dynamic(self.as_dynamic(pool, bootstrap_methods)?)),
+			PoolEntry::Dynamic { .. } => Ok(Loadable::Dynamic(self.as_dynamic(pool, bootstrap_methods, depth)?)),
 			_ => bail!("pool entry is not loadable: {self:?}"),
 		}
 	}
@@ -507,7 +516,12 @@ impl PoolRead {
 	///
 	/// These are collected in the [`Loadable`] type.
 	pub(crate) fn get_loadable(&self, index: u16, bootstrap_methods: &Option<Vec<BootstrapMethodRead>>) -> Result<Loadable> {
-		self.get(index)?.as_loadable(self, bootstrap_methods).pool_context(index)
+		self.get_loadable_nested(index, bootstrap_methods, 0)
+	}
+
+	/// Like [`PoolRead::get_loadable`], for a loadable that is `depth` levels deep in arguments of bootstrap methods.
+	fn get_loadable_nested(&self, index: u16, bootstrap_methods: &Option<Vec<BootstrapMethodRead>>, depth: usize) -> Result<Loadable> {
+		self.get(index)?.as_loadable(self, bootstrap_methods, depth).pool_context(index)
 	}
 
 	pub(crate) fn get_constant_value(&self, index: u16) -> Result<ConstantValue> {
